@@ -123,6 +123,24 @@ def _row_job(rec):
                 o = obs_of(*r)
                 if not same(ideal, o):
                     bad.append((name, t, '', [], ideal, o))
+            if t == '':
+                # the empty text as a BLANK cell (empty in the workbook / cleared with an override of None): the same results as for ""
+                for blank in ([], [(0, 0, 0, None)]):
+                    for i, nn in enumerate(ns):
+                        res = p.eval(blank + [(0, 1, 0, nn), (0, 2, 0, max(nn, 1))], idxs=(0, 1, 2))
+                        for name, ideal, r in (('LEFT', rec['left'][i], res[0]), ('RIGHT', rec['right'][i], res[1]), ('MID', rec['mid'][ns.index(max(nn, 1))][i] if max(nn, 1) in ns else None, res[2])):
+                            if ideal is None:
+                                continue
+                            n += 1
+                            o = obs_of(*r)
+                            if not same(ideal, o):
+                                bad.append((name + ' of a blank cell', t, '', [nn], ideal, o))
+                    res = p.eval(blank or None, idxs=(3, 4))
+                    for name, ideal, r in (('LEFT1', rec['left1'], res[0]), ('RIGHT1', rec['right1'], res[1])):
+                        n += 1
+                        o = obs_of(*r)
+                        if not same(ideal, o):
+                            bad.append((name + ' of a blank cell', t, '', [], ideal, o))
         elif f == 'SEARCH':
             t, pat = s_of(rec['t']), s_of(rec['p'])
             for s, ideal in enumerate(rec['r']):
